@@ -713,14 +713,163 @@ async fn run_leftovers(c: &LeftoverCase) -> CaseResult {
 
 pub fn leftover_strategy(sqlite: bool) -> impl Strategy<Value = LeftoverCase> {
     (
-        20u16..200,
-        prop_oneof![1 => Just(None), 2 => Just(Some(1u16)), 2 => Just(Some(7)), 2 => Just(Some(64))],
+        // (now and then far more leftovers than any internal chunking of a sweep would hold at once; cheap in memory only)
+        if sqlite { (20u16..200).boxed() } else { prop_oneof![4 => 20u16..200, 1 => 520u16..3000].boxed() },
+        prop_oneof![2 => Just(None), 2 => Just(Some(1u16)), 2 => Just(Some(7)), 2 => Just(Some(64)), 1 => Just(Some(1000))],
         (if sqlite { 1u8 } else { 0u8 })..3,
         2u8..5,
         any::<bool>(),
         prop::bool::weighted(0.3),
     )
-        .prop_map(move |(n_ids, batch, reapers, creators, contended, big_old_state)| LeftoverCase { sqlite, n_ids, batch, reapers, creators, contended, big_old_state })
+        .prop_map(move |(n_ids, batch, reapers, creators, contended, big_old_state)| {
+            let (batch, big_old_state, reapers) = if n_ids >= 500 { (batch.filter(|b| *b >= 64), false, reapers.max(1)) } else { (batch, big_old_state, reapers) };
+            LeftoverCase { sqlite, n_ids, batch, reapers, creators, contended, big_old_state }
+        })
+}
+
+// ------------------------------------------------------------------------------------------
+// Renames onto an expired leftover: an id whose record has expired but was not reaped, and 2-3 live records that are
+// renamed onto it at the same time (`change_id(a_j, b)`), optionally next to a reaper. In every sequential order at most
+// one rename can succeed (after the first, `b` is live); the winner's state is what `b` holds afterwards, the sources of
+// the losers are untouched. (Whether a rename onto an expired-but-unreaped id succeeds at all differs between the two
+// stores and is not judged.)
+// ------------------------------------------------------------------------------------------
+
+#[derive(Clone, Debug, Serialize, Deserialize)]
+pub struct RenameCase {
+    pub sqlite: bool,
+    pub n_targets: u16,
+    pub renamers: u8,
+    pub reaper: bool,
+}
+
+pub fn rename_oracle(c: &RenameCase) -> CaseResult {
+    let r = crate::util::catch(|| mt_rt().block_on(run_renames(c)));
+    match r {
+        Ok(r) => r,
+        Err(p) => Err(Fail::new(format!("panic:{}", crate::util::panic_sig(&p)), format!("panicked: {p}"))),
+    }
+}
+
+async fn run_renames(c: &RenameCase) -> CaseResult {
+    let backend = if c.sqlite { "sqlite" } else { "memory" };
+    let mut info = CaseInfo::default();
+    let dir = std::path::Path::new("/verif/.work/c13db");
+    let _ = std::fs::create_dir_all(dir);
+    let db_path = dir.join(format!("c13-ren-{}-{}.db", std::process::id(), DB_COUNTER.fetch_add(1, std::sync::atomic::Ordering::Relaxed)));
+    let store: Arc<dyn SessionStorageBackend> = if c.sqlite { Arc::new(crate::stores::sqlite_file(&db_path, 6).await) } else { Arc::new(InMemorySessionStore::new()) };
+    let n = c.n_targets.max(1) as usize;
+    let r = c.renamers.clamp(2, 3) as usize;
+    let targets = Arc::new(fresh_ids(n));
+    let sources: Arc<Vec<Vec<SessionId>>> = Arc::new((0..r).map(|_| fresh_ids(n)).collect());
+    let state_of = |j: usize, k: usize| {
+        let mut st = State::default();
+        st.insert("src".into(), Value::from(j as u64));
+        st.insert("k".into(), Value::from(k as u64));
+        st
+    };
+    for k in 0..n {
+        let mut old = State::default();
+        old.insert("old".into(), Value::from(k as u64));
+        store.create(&targets[k], SessionRecordRef { state: Cow::Borrowed(&old), ttl: Duration::ZERO }).await.map_err(|e| Fail::new(format!("{backend}:create"), format!("{e:?}")))?;
+        for j in 0..r {
+            store.create(&sources[j][k], SessionRecordRef { state: Cow::Owned(state_of(j, k)), ttl: Duration::from_secs(3600) }).await.map_err(|e| Fail::new(format!("{backend}:create"), format!("{e:?}")))?;
+        }
+    }
+    tokio::time::sleep(Duration::from_millis(if c.sqlite { 1100 } else { 3 })).await;
+    let barrier = Arc::new(tokio::sync::Barrier::new(r + c.reaper as usize));
+    let reaper = if c.reaper {
+        let (store, barrier) = (store.clone(), barrier.clone());
+        Some(tokio::spawn(async move {
+            barrier.wait().await;
+            for _ in 0..20 {
+                let _ = store.delete_expired(NonZeroUsize::new(16)).await;
+                tokio::task::yield_now().await;
+            }
+        }))
+    } else {
+        None
+    };
+    let mut hs = vec![];
+    for j in 0..r {
+        let (store, barrier, targets, sources) = (store.clone(), barrier.clone(), targets.clone(), sources.clone());
+        hs.push(tokio::spawn(async move {
+            barrier.wait().await;
+            let mut oks = vec![];
+            for k in 0..targets.len() {
+                if store.change_id(&sources[j][k], &targets[k]).await.is_ok() {
+                    oks.push(k);
+                }
+            }
+            oks
+        }));
+    }
+    let mut ok_by: Vec<Vec<usize>> = vec![vec![]; n];
+    for (j, h) in hs.into_iter().enumerate() {
+        for k in h.await.map_err(|e| Fail::new("harness:join", e.to_string()))? {
+            ok_by[k].push(j);
+        }
+    }
+    if let Some(h) = reaper {
+        let _ = h.await;
+    }
+    let mut result = Ok(());
+    let mut contended_wins = 0;
+    'outer: for k in 0..n {
+        if ok_by[k].len() > 1 {
+            result = Err(Fail::new(
+                format!("{backend}:two-renames-onto-one-id-succeeded"),
+                format!("{backend} store: change_id onto the same id (held by an expired, unreaped record) returned Ok to {} concurrent callers: in every sequential order the second one finds a live record there", ok_by[k].len()),
+            ));
+            break;
+        }
+        let loaded = store.load(&targets[k]).await.map_err(|e| Fail::new(format!("{backend}:load"), format!("{e:?}")))?;
+        match (ok_by[k].first(), loaded) {
+            (Some(j), Some(rec)) if rec.state == state_of(*j, k) => contended_wins += 1,
+            (Some(j), other) => {
+                result = Err(Fail::new(format!("{backend}:rename-lost"), format!("{backend} store: change_id returned Ok to caller {j} but the target id holds {:?}", other.map(|r| r.state))));
+                break;
+            }
+            (None, Some(rec)) => {
+                result = Err(Fail::new(format!("{backend}:rename-without-ok"), format!("{backend} store: no change_id succeeded but the target id holds a live record {:?}", rec.state)));
+                break;
+            }
+            (None, None) => {}
+        }
+        for j in 0..r {
+            let src = store.load(&sources[j][k]).await.map_err(|e| Fail::new(format!("{backend}:load"), format!("{e:?}")))?;
+            let winner = ok_by[k].first() == Some(&j);
+            match (winner, src) {
+                (true, None) => {}
+                (true, Some(_)) => {
+                    result = Err(Fail::new(format!("{backend}:rename-left-old-id"), format!("{backend} store: change_id returned Ok but the old id still loads")));
+                    break 'outer;
+                }
+                (false, Some(rec)) if rec.state == state_of(j, k) => {}
+                (false, other) => {
+                    result = Err(Fail::new(
+                        format!("{backend}:failed-rename-destroyed-its-source"),
+                        format!("{backend} store: change_id failed for caller {j} (another caller won the id) but its own live record now loads as {:?}", other.map(|r| r.state)),
+                    ));
+                    break 'outer;
+                }
+            }
+        }
+    }
+    drop(store);
+    if c.sqlite {
+        let _ = std::fs::remove_file(&db_path);
+        let _ = std::fs::remove_file(db_path.with_extension("db-wal"));
+        let _ = std::fs::remove_file(db_path.with_extension("db-shm"));
+    }
+    result?;
+    info.set_nontrivial(true);
+    info.lab(format!("renames-onto-expired:{}{}", if contended_wins > 0 { "some-won" } else { "none-won" }, if c.reaper { "+reaper" } else { "" }));
+    Ok(info)
+}
+
+pub fn rename_strategy(sqlite: bool) -> impl Strategy<Value = RenameCase> {
+    (40u16..240, 2u8..4, any::<bool>()).prop_map(move |(n_targets, renamers, reaper)| RenameCase { sqlite, n_targets, renamers, reaper })
 }
 
 fn ids_of(op: &Op) -> Vec<u8> {
@@ -859,7 +1008,7 @@ pub fn conc_strategy(sqlite: bool) -> impl Strategy<Value = ConcCase> {
 }
 
 pub fn main(mut chk: Check) -> ! {
-    chk.ev.rule = "sequential: 1-40 store operations (create/update/update_ttl/load/delete/change_id/delete_expired) over 3 ids, states = arbitrary JSON maps (any unicode, extreme numbers), ttl in {0 = expired at once, 1h, 10y, 1h+100ms, 1h+999ms, 10y+999ms}, on the in-memory and the SQLite store; every result is checked against a map-with-expiry model and every id is loaded at the end. concurrent: 2-4 tasks x 2-5 ops on 2 ids (long TTLs), multi-thread runtime, barrier start, random yields, each history repeated; oracle = some interleaving respecting program order explains all results and final loads (memoised DFS). leftovers: 20-200 ids with an expired, unreaped record; 0-2 reaper tasks (delete_expired, batch none/1/7/64) and 2-4 creator tasks (contended or partitioned) start together; oracle = what every sequential order implies (some create succeeds per id, in-memory exactly one, the final record is the one of a successful creator, never gone). non-trivial = an op touches an expired record or a change_id whose target exists (sequential), >=2 tasks write the same id (concurrent); distinct = distinct serialised case".into();
+    chk.ev.rule = "sequential: 1-40 store operations (create/update/update_ttl/load/delete/change_id/delete_expired) over 3 ids, states = arbitrary JSON maps (any unicode, extreme numbers), ttl in {0 = expired at once, 1h, 10y, 1h+100ms, 1h+999ms, 10y+999ms}, on the in-memory and the SQLite store; every result is checked against a map-with-expiry model and every id is loaded at the end. concurrent: 2-4 tasks x 2-5 ops on 2 ids (long TTLs), multi-thread runtime, barrier start, random yields, each history repeated; oracle = some interleaving respecting program order explains all results and final loads (memoised DFS). leftovers: 20-200 ids with an expired, unreaped record; 0-2 reaper tasks (delete_expired, batch none/1/7/64) and 2-4 creator tasks (contended or partitioned) start together; oracle = what every sequential order implies (some create succeeds per id, in-memory exactly one, the final record is the one of a successful creator, never gone). renames: 40-240 ids held by an expired, unreaped record, each the target of 2-3 concurrent change_id calls from live records (optionally next to a reaper); oracle = at most one rename per target succeeds, the target then holds the winner's state, losers keep their record. non-trivial = an op touches an expired record or a change_id whose target exists (sequential), >=2 tasks write the same id (concurrent); distinct = distinct serialised case".into();
     chk.ev.assume("create on a live id may answer DuplicateId or Ok-without-effect (the latter is pinned by an upstream SQLite test)");
     chk.ev.assume("change_id onto an id still physically occupied by an expired, unpurged record may be refused (not covered by the statement)");
     chk.ev.assume("floating point numbers are restricted to those that survive serde_json text encoding/decoding in the harness (serde_json is built without float_roundtrip; 1-ULP parse errors are a property of that library, not of the stores)");
@@ -874,7 +1023,9 @@ pub fn main(mut chk: Check) -> ! {
             || chk.replay_one::<ConcCase, _>("concurrent-memory", &p, |c| conc_oracle(c, 50))
             || chk.replay_one::<ConcCase, _>("concurrent-sqlite", &p, |c| conc_oracle(c, 50))
             || chk.replay_one::<LeftoverCase, _>("leftovers-memory", &p, leftover_oracle)
-            || chk.replay_one::<LeftoverCase, _>("leftovers-sqlite", &p, leftover_oracle);
+            || chk.replay_one::<LeftoverCase, _>("leftovers-sqlite", &p, leftover_oracle)
+            || chk.replay_one::<RenameCase, _>("renames-memory", &p, rename_oracle)
+            || chk.replay_one::<RenameCase, _>("renames-sqlite", &p, rename_oracle);
         if !ok {
             eprintln!("replay file {} does not belong to C13", p.display());
             std::process::exit(2);
@@ -894,5 +1045,7 @@ pub fn main(mut chk: Check) -> ! {
     chk.run("concurrent-sqlite", t.pick(60, 1_500), conc_strategy(true), |c| conc_oracle(c, reps));
     chk.run("leftovers-memory", t.pick(60, 1_500), leftover_strategy(false), leftover_oracle);
     chk.run("leftovers-sqlite", t.pick(10, 120), leftover_strategy(true), leftover_oracle);
+    chk.run("renames-memory", t.pick(40, 1_000), rename_strategy(false), rename_oracle);
+    chk.run("renames-sqlite", t.pick(8, 100), rename_strategy(true), rename_oracle);
     chk.finish()
 }
